@@ -1,7 +1,7 @@
 --------------------------- MODULE RRTLattice ---------------------------
 (* Lattice instance of RRTStar for exhaustive exploration by TLC: integer positions, the
    spatial index answers by squared Euclidean distance (all ties are possible answers, as
-   with rtree), the caller's metric is L1 (deliberately different from the index metric, so
+   with rtree), the caller's metric is a weighted L1 (deliberately different from the index metric, so
    nearest /= cheapest), the caller's collision detector is exact segment-vs-box (SegGeom).  *)
 EXTENDS RRTStar, SegGeom, TLC, Json
 
@@ -17,7 +17,9 @@ VARIABLES pos,          \* Seq of positions, parallel to tree
           lastN0, lastExam   \* observation of the last Place (for the action property)
 vars == <<tree, pos, hist, lastN0, lastExam>>
 
-L1(p, q) == Abs(p[1] - q[1]) + Abs(p[2] - q[2]) + Abs(p[3] - q[3])
+(* the caller's metric: anisotropic weighted L1 - deliberately far from the index's Euclidean metric, so that
+   "nearest" and "cheapest" differ often and a planner that mixes the two metrics up is exposed *)
+L1(p, q) == 3 * Abs(p[1] - q[1]) + Abs(p[2] - q[2]) + 2 * Abs(p[3] - q[3])
 E2(p, q) == (p[1] - q[1]) * (p[1] - q[1]) + (p[2] - q[2]) * (p[2] - q[2]) + (p[3] - q[3]) * (p[3] - q[3])
 Coll(p, q) == \E b \in Boxes : HitsSlab(p, q, b)
 N == Len(tree)
